@@ -109,3 +109,66 @@ Definition chk_deposit_units (units tv0 tv1 units1 : Q) : bool :=
   approx_scale (qabs units) (pf_units (pf_deposit {| pf_units := units; pf_static := 1 |} tv0 tv1)) units1.
 Definition chk_latch (units tv static1 : Q) : bool := approx (pf_static (latch {| pf_units := units; pf_static := 1 |} tv)) static1.
 Definition chk_daily_returns (units static tv r : Q) : bool := approx (daily_returns {| pf_units := units; pf_static := static |} tv) r.
+
+(* ---- matching (C05 C06) and the order lifecycle (C04) ---- *)
+From RQ Require Import Model.Matcher Model.Order.
+Definition reason_eqb (a b : reason) : bool :=
+  match a, b with
+  | RListedToday, RListedToday | RLimitUp, RLimitUp | RLimitDown, RLimitDown | RNoVolume, RNoVolume
+  | RVolumeCap, RVolumeCap | RSlipCash, RSlipCash | RPartial, RPartial => true
+  | _, _ => false
+  end.
+Definition outcome_eq (a b : outcome) : bool :=
+  match a, b with
+  | NoMatch, NoMatch => true
+  | Rejected r, Rejected r' => reason_eqb r r'
+  | Cancelled r, Cancelled r' => reason_eqb r r'
+  | Filled p q ct rc, Filled p' q' ct' rc' => approx p p' && approx q q' && approx ct ct' && Bool.eqb rc rc'
+  | _, _ => false
+  end.
+Definition stock_fee (sc : scost) (e : cm_entry) (is_cs sell : bool) : Q -> Q -> Q -> Q :=
+  fun p q _ => qadd (fst (trade_commission sc e p q)) (trade_tax sc is_cs sell p q).
+Definition future_fee (f : fcost) (is_open : bool) : Q -> Q -> Q -> Q := fun p q ct => fut_commission f is_open p q ct.
+Definition chk_match (g : mcfg) (i : mins) (bar abar pb : mbar) (auction : bool) (turnover : Q) (o : morder)
+           (fee_of : Q -> Q -> Q -> Q) (occ_factor avail : Q) (c : pcfg) (p : pos) (expected : outcome) : bool :=
+  outcome_eq (match_one g i bar abar pb auction turnover o fee_of (fun price => qmul (qmul price (mo_qty o)) occ_factor) avail
+                        (fun q => calc_close_today_amount c p q (mo_effect o))) expected.
+
+Definition status_eqb (a b : status) : bool :=
+  match a, b with
+  | PendingNew, PendingNew | Active, Active | SFilled, SFilled | SCancelled, SCancelled | SRejected, SRejected | PendingCancel, PendingCancel => true
+  | _, _ => false
+  end.
+Definition oev_eq (a b : oev) : bool :=
+  match a, b with
+  | EvPendingNew, EvPendingNew | EvCreationPass, EvCreationPass | EvPendingCancel, EvPendingCancel | EvCancellationPass, EvCancellationPass => true
+  | EvTrade p q f, EvTrade p' q' f' => approx p p' && approx q q' && approx f f'
+  | EvUnsolicited s, EvUnsolicited s' => status_eqb s s'
+  | _, _ => false
+  end.
+Fixpoint oevs_eq (a b : list oev) : bool :=
+  match a, b with
+  | [], [] => true
+  | x :: s, y :: t => oev_eq x y && oevs_eq s t
+  | _, _ => false
+  end.
+(* the auction flag the broker passes to the matcher: true exactly while the order sits in _open_auction_orders *)
+Fixpoint flags_of (o : ostate) (ins : list oin) : list bool :=
+  match ins with
+  | [] => []
+  | IMatch r f :: t =>
+      match os_place o with
+      | Nowhere => flags_of (fst (ostep o (IMatch r f))) t
+      | InAuction => true :: flags_of (fst (ostep o (IMatch r f))) t
+      | InOpen => false :: flags_of (fst (ostep o (IMatch r f))) t
+      end
+  | i :: t => flags_of (fst (ostep o i)) t
+  end.
+Fixpoint bools_eq (a b : list bool) : bool :=
+  match a, b with [], [] => true | x :: s, y :: t => Bool.eqb x y && bools_eq s t | _, _ => false end.
+Definition chk_order (qty : Q) (ins : list oin) (flags : list bool) (evs : list oev) (st : status) (filled avg tcost : Q) : bool :=
+  let r := orun (fresh_order qty) ins in
+  bools_eq (flags_of (fresh_order qty) ins) flags &&
+  oevs_eq (snd r) evs && status_eqb (os_status (fst r)) st && approx (os_filled (fst r)) filled &&
+  approx (os_avg (fst r)) avg && approx (os_tcost (fst r)) tcost &&
+  negb (match prun P0 (snd r) with PFail => true | _ => false end).
